@@ -30,7 +30,8 @@ RULE = ("one case per row of the default database (all 1548, exhaustive): readin
         "reads the row (compound or SI) / the string decomposes")
 EXHAUSTIVE = {"quick": True, "thorough": True}
 ASSUMPTIONS = [
-    "written precision of a literal = one part in its decimal mantissa (mantissas below 100 exact), summed over "
+    "written precision of a literal = one part in its decimal mantissa (mantissas below 100 and whole numbers below "
+    "100000 exact), summed over "
     "the literals of the executed to-base formula; computed by the translator (harness/c06rule.py)",
     "real-code factors are floats: agreement with the exact model is checked within K*eps*M, not proved",
     "the SI reading needs the registered name to say prefix+base name (lower case, metre/meter, litre/liter, "
